@@ -26,7 +26,7 @@ RULE = ('cases = boolean tables (K scopes of DESIGN 3.4); per table every concep
         'extent and an intent of <= 12 properties the complete list of attributes() against the filtered powerset, '
         'for larger intents (wide tables only) the first 6 yielded sets against the first 6 of the lazily filtered '
         'powerset; non-trivial = table with >= 2 concepts, distinct up to row/column permutation')
-SCOPE = {'quick': ('all tables <= 3x3, structured families <= 4, 40 random <= 6x6, 3 wide tables (> 64 bit); intents '
+SCOPE = {'quick': ('all tables <= 3x3, structured families <= 4, 40 random <= 6x6, 3 wide tables (> 64 bit), two 5x11 / 5x12 tables with a full row; intents '
                    'bounded: full enumeration only for intents of <= 12 properties, first 6 generators beyond'),
          'thorough': ('all tables with n*m <= 12, structured families <= 6, 400 random <= 7x7, 6 wide tables; intents '
                       'bounded: full enumeration only for intents of <= 12 properties, first 6 generators beyond')}
@@ -40,7 +40,12 @@ C_INF = 'the infimum\'s minimal() is its full intent'
 
 
 def gen_cases(tier, rng):
-    return common.standard_cases(tier, rng)
+    yield from common.standard_cases(tier, rng)
+    # intents of 11 and 12 properties enumerated in full (seeded C18-K: a different subset walk above 10 properties): one object with
+    # every property, the others with dense random rows, so that equal-sized generators differ in lexicographic vs. other orders
+    for m in ((11, 12) if tier == 'quick' else (11, 12, 12, 12)):
+        rows = [[True] * m] + [[rng.random() < 0.7 for _ in range(m)] for _ in range(4)]
+        yield common.case_of_table(rows, family='tall-intent-%d' % m)
 
 
 def check_case(case):
